@@ -1,5 +1,51 @@
-import FGVerif.Driver.Shared
-/-! driver operations for C17 (stub: replaced by the property's own driver) -/
+import FGVerif.Wire
+import FGVerif.Model.C17
+/-! driver operations for C17 -/
 namespace C17
-def handle : List SExp → Option SExp := fun _ => none
+open SExp
+
+def encLists (o : List (List Nat)) : SExp := ofList (ofList ofNat) o
+
+def encResult : Result → SExp
+  | .ok o => encLists o
+  | .assertion _ => .list [.atom "raised", .atom "Assertion"]
+  | .fuel _ => .list [.atom "raised", .atom "Fuel"]
+
+/-- `(cis <orig: ((id (nbr …)) …)> <anchor id> <adj: ((nbr …) …)> [<impl: ((id …) …) | (raised K)>])`
+
+    `orig`  = the graph as given to the function, ids coded as naturals by the harness
+              (node order, neighbour order of the original graph);
+    `adj`   = `list(G2.neighbors(i))` for `i = 0 … n-1` of the relabelled graph `G2`.
+    reply: `(ok <model output> <spec_model> <spec_impl> <failing clause of impl> <relabel consistent>
+             <well-formed> <number of connected sets> <events had assert failure> )`.
+    The specification is evaluated on the ORIGINAL graph in the original ids (it does not know
+    about `nmap`). -/
+def handle : List SExp → Option SExp
+  | .atom "cis" :: orig :: anchor :: adj :: rest => do
+      let orig ← asList (asPair asNat (asList asNat)) orig
+      let anchor ← asNat anchor
+      let adj ← asList (asList asNat) adj
+      let verts := orig.map (·.1)
+      let nb := nbOrig orig
+      let model := nodeInducedCIS verts anchor adj
+      let specModel := match model with
+        | .ok o => specCheck verts nb anchor o
+        | _ => false
+      let (specImpl, clause) ← match rest with
+        | [.list [.atom "raised", .atom _]] => pure (ofBool false, ofNat 9)
+        | [impl] => do
+            let out ← asList (asList asNat) impl
+            pure (ofBool (specCheck verts nb anchor out), ofNat (specClause verts nb anchor out))
+        | _ => pure (none', none')
+      pure (.list [.atom "ok", encResult model, ofBool specModel, specImpl, clause,
+        ofBool (relabelConsistent orig anchor adj), ofBool (wellFormed adj),
+        ofNat (allConnectedSubsets verts nb anchor).length])
+  | [.atom "spec", orig, anchor] => do
+      -- the executable specification alone: canonical connected sets containing the anchor
+      let orig ← asList (asPair asNat (asList asNat)) orig
+      let anchor ← asNat anchor
+      let sets := (allConnectedSubsets (orig.map (·.1)) (nbOrig orig) anchor).map canonSet
+      pure (.list [.atom "ok", encLists sets, ofBool true, none'])
+  | _ => none
+
 end C17
